@@ -27,6 +27,8 @@ func register(c *Check) { Checks[c.ID] = c }
 // TaskHandlers maps task types to child handlers.
 var TaskHandlers = map[string]func(raw []byte) interface{}{
 	"expand": xstate.HandleExpand,
+	"probe":  xstate.HandleProbe,
+	"twin":   xstate.HandleTwin,
 }
 
 // HandleTask dispatches a child task by its "type" member.
